@@ -135,7 +135,7 @@ def run(ctx):
                 purity(ctx, d3, f, inplace)
 
     # ---------------- D4
-    pat = re.compile(r'^_i?(add|sub|mul|truediv|and|xor|or|eq|ne|gt|lt|ge|le)_(sparse|scalar|array)$')
+    pat = re.compile(r'^_i?(add|sub|mul|truediv|and|xor|or|eq|ne|gt|lt|ge|le)_[a-z]+$')
     for c in classes:
         for name in c.generated:
             f = c.methods.get(name)
